@@ -92,6 +92,29 @@ def state_writes(px, region_funcs):
                 return ("module", base.id)
             return None
 
+        # locals that alias state: `v = self.attr` (plain attribute or a cached property, never an ordinary @property or a
+        # call, whose value is new each time): a mutation through v is a mutation of the attribute's object
+        aliases = {}
+        for n in ast.walk(f.node):
+            if isinstance(n, ast.Assign) and len(n.targets) == 1 and isinstance(n.targets[0], ast.Name) and isinstance(n.value, (ast.Attribute, ast.Subscript)):
+                o = owner_of(n.value)
+                if o and o[0] in ("self", "cls") and cls is not None:
+                    meth = cls.mro_lookup(o[1])
+                    if meth is not None and not any(d.split("(")[0].split(".")[-1] in ("cached_property", "lru_cache", "cache") for d in meth.decorators):
+                        continue  # an ordinary method / property: evaluated per use
+                    if isinstance(n.value, ast.Attribute) and n.value.attr != o[1] and not isinstance(n.value.value, ast.Subscript):
+                        continue  # self.a.b: an attribute of another object, judged where that object's class is analysed
+                    aliases.setdefault(n.targets[0].id, o)
+        for n in ast.walk(f.node):
+            if isinstance(n, ast.Call) and isinstance(n.func, ast.Attribute) and n.func.attr in MUTATORS and isinstance(n.func.value, ast.Name) \
+                    and n.func.value.id in aliases:
+                o = aliases[n.func.value.id]
+                out.append((f, n, o[0], o[1], n.func.attr + "() through a local alias"))
+            if isinstance(n, (ast.Assign, ast.AugAssign)):
+                for t in (n.targets if isinstance(n, ast.Assign) else [n.target]):
+                    if isinstance(t, ast.Subscript) and isinstance(t.value, ast.Name) and t.value.id in aliases:
+                        o = aliases[t.value.id]
+                        out.append((f, n, o[0], o[1], "item assignment through a local alias"))
         for n in ast.walk(f.node):
             tgts = []
             if isinstance(n, ast.Assign):
@@ -392,6 +415,7 @@ def rule_render_time(ctx, px):
         raise AnalysisError("anchor missing: no nunavut decorator sets a non-foldable filter attribute")
     # (3) template filters/tests that reach the counters
     n = 0
+    foldable = set()
     for f in px.all_funcs:
         if f.outer is not None or f.cls is not None or not (f.name.startswith("filter_") or f.name.startswith("is_") or f.name.startswith("uses_")):
             continue
@@ -414,10 +438,74 @@ def rule_render_time(ctx, px):
         n += 1
         decos = [d.split("(")[0].split(".")[-1] for d in f.decorators]
         ok = any(d in render_time for d in decos)
+        if not ok:
+            foldable.add(f"{f.module.name.split('.')[-1]}.{f.name}")
         ctx.ob(R, f.module.rel, f"{f.short} :: evaluated at render time (decorators {decos or 'none'})", ok,
                "" if ok else f"none of {render_time}: `'x' | {f.name[len('filter_'):]}` is folded when the template is compiled, before the per-file reset; the name depends "
                "on what was generated earlier in the process", f.node.lineno)
     ctx.floor(R, n, 4)
+    _compile_order(ctx, px, R, foldable)
+
+
+COMPILE_APIS = {"get_template", "select_template", "get_or_select_template", "from_string", "compile_templates"}
+
+
+def _compile_order(ctx, px, R, foldable):
+    """(4) where templates are compiled.  Constant folding happens when a template is *compiled*.  A template that a
+    rendered template imports / includes / extends is compiled by the rendering itself, i.e. after the per-file reset;
+    the only compilation that may precede the reset is the look-up of the one template the file is rendered from.  Any
+    other compile site (a warm-up loop, a pre-load of the whole template set) compiles the imported codec templates
+    against the counters the previous file / the previous run of the process left behind - harmless only while no
+    counter filter is foldable."""
+    n = 0
+    render_entry = {}
+    for f in px.all_funcs:
+        if f.outer is not None or not f.module.name.startswith("nunavut"):
+            continue
+        for c in ast.walk(f.node):
+            if isinstance(c, ast.Call) and isinstance(c.func, ast.Attribute) and c.func.attr == "_generate_code":
+                render_entry[f.qual] = f
+    # callers by simple name inside the package
+    callers = {}
+    for g in px.all_funcs:
+        if g.outer is not None:
+            continue
+        loops = [lp for lp in ast.walk(g.node) if isinstance(lp, (ast.For, ast.While, ast.ListComp, ast.GeneratorExp, ast.SetComp, ast.DictComp))]
+        for c in ast.walk(g.node):
+            if isinstance(c, ast.Call) and isinstance(c.func, ast.Attribute) and isinstance(c.func.value, ast.Name) and c.func.value.id in ("self", "cls"):
+                in_loop = any(c in set(ast.walk(lp)) for lp in loops)
+                callers.setdefault(c.func.attr, []).append((g, in_loop))
+
+    def per_file(f, in_loop, depth=0):
+        """f compiles on behalf of exactly one file that is about to be rendered"""
+        if in_loop:
+            return False
+        if f.qual in render_entry:
+            return True
+        if depth >= 3 or not f.name.startswith("_"):
+            return False
+        cs = callers.get(f.name, [])
+        return bool(cs) and all(per_file(g, lp, depth + 1) for g, lp in cs)
+
+    for f in px.all_funcs:
+        if f.outer is not None or not f.module.name.startswith("nunavut"):
+            continue
+        loops = [lp for lp in ast.walk(f.node) if isinstance(lp, (ast.For, ast.While, ast.ListComp, ast.GeneratorExp, ast.SetComp, ast.DictComp))]
+        for c in ast.walk(f.node):
+            if not (isinstance(c, ast.Call) and isinstance(c.func, ast.Attribute) and c.func.attr in COMPILE_APIS):
+                continue
+            if c.func.attr == "from_string" and "env" not in ast.unparse(c.func.value).lower():
+                continue  # an alternative constructor of some other class, not Environment.from_string
+            n += 1
+            in_loop = any(c in set(ast.walk(lp)) for lp in loops)
+            own = per_file(f, in_loop)
+            ok = own or not foldable
+            ctx.ob(R, f.module.rel, f"{f.short} :: {c.func.attr}() compiles only the template of the file about to be rendered", ok,
+                   "" if ok else f"compile site outside a per-file section ({'inside a loop' if in_loop else 'not on behalf of one rendered file'}) while "
+                   f"{sorted(foldable)} can be constant-folded: every template compiled here - including the codec templates that are otherwise compiled by the "
+                   "rendering, after UniqueNameGenerator.reset() - has its constant `'tok' | to_template_unique_name` uses evaluated against the counters "
+                   "left by the previous file or the previous run of the process", c.lineno)
+    ctx.floor(R + ":compile-sites", n, 2)
 
 
 def cached_property_per_instance(px):
